@@ -120,31 +120,6 @@ Definition plain_code (l : list N) : Prop :=
 Definition no_newline (l : list N) : Prop := ~ In 10 l.
 Definition no_close (l : list N) : Prop := ~ has_pair 42 47 l.
 
-(* executable versions (used by the search oracle and in proofs) *)
-Fixpoint plain_code_b (l : list N) : bool :=
-  match l with
-  | [] => true
-  | c :: r =>
-      if c =? 47 then
-        match r with
-        | [] => false
-        | c1 :: _ => negb (c1 =? 47) && negb (c1 =? 42) && plain_code_b r
-        end
-      else plain_code_b r
-  end.
-
-Fixpoint no_close_b (l : list N) : bool :=
-  match l with
-  | [] => true
-  | c :: r =>
-      match r with
-      | [] => true
-      | c1 :: _ => negb ((c =? 42) && (c1 =? 47)) && no_close_b r
-      end
-  end.
-
-Definition no_newline_b (l : list N) : bool := forallb (fun c => negb (c =? 10)) l.
-
 (* result of lexing `pre ++ rest` when `pre` lexes to `out` and ends in code:
    the text of the rest follows, an error of the rest moves by the bytes of pre *)
 Definition after (pre out : list N) (m : outcome (list N)) : outcome (list N) :=
@@ -153,3 +128,27 @@ Definition after (pre out : list N) (m : outcome (list N)) : outcome (list N) :=
   | Err (EOther z) => Err (EOther (Z.of_nat (text_bytes pre) + z))
   | other => other
   end.
+
+(* ------------------------------------------------------------------ *)
+(* positions (C04): what "offsets are preserved" means                 *)
+(* ------------------------------------------------------------------ *)
+
+(* t is s with some scalars replaced by blanks of the same byte length *)
+Inductive blanked : list N -> list N -> Prop :=
+| blanked_nil : blanked [] []
+| blanked_keep : forall c s t, blanked s t -> blanked (c :: s) (c :: t)
+| blanked_blank : forall c s t, blanked s t -> blanked (c :: s) (spaces (scalar_bytes c) ++ t).
+
+(* byte offset o is a scalar boundary of l (start of a scalar, or the end) *)
+Definition boundary (l : list N) (o : nat) : Prop :=
+  exists u v, l = u ++ v /\ text_bytes u = o.
+
+(* the scalar c starts at byte offset o of l *)
+Definition scalar_at (l : list N) (o : nat) (c : N) : Prop :=
+  exists u v, l = u ++ c :: v /\ text_bytes u = o.
+
+(* comments that are complete in themselves *)
+Definition block_comment (c : list N) : Prop :=
+  exists body, no_close body /\ c = [47; 42] ++ body ++ [42; 47].
+Definition line_comment (c : list N) : Prop :=
+  exists body, no_newline body /\ c = [47; 47] ++ body.
